@@ -467,6 +467,14 @@ Section Messages.
   Proof. unfold parse_reg_message. now intros ->. Qed.
 End Messages.
 
+Lemma admissible_conjuncts_pre covert_check live cfg st r :
+  admissible covert_check live cfg st r = true -> exists lit, covert_check (r_covert r) = Some lit.
+Proof.
+  unfold admissible, covert_ok. intro H.
+  apply andb_true_iff in H as [H _]. apply andb_true_iff in H as [_ H].
+  destruct (covert_check (r_covert r)) as [lit|]; [eauto | discriminate].
+Qed.
+
 Section Process.
   Variable select : bytes -> N -> N -> bool -> option ipraw.
   Variable params_ok : N -> N -> option N -> bool.
@@ -613,6 +621,19 @@ Section Process.
       destruct v6.
       + right. now rewrite Hw, En.
       + left. rewrite Hw, En. exact Hin.
+  Qed.
+
+  (* the true part of the "if" direction: with every requested family buildable and the registration not
+     already tracked, meeting the listed conditions means being announced *)
+  Lemma if_direction_partial cfg st w p v6 r :
+    w_payload w = Some p -> message_ok' cfg w p = true -> want cfg w p v6 = true ->
+    new_reg' cfg w p v6 = Ok r ->
+    admissible' cfg (state_before' cfg st w p v6) r = true ->
+    exists r', In (Announce r') (snd (process' cfg st w)).
+  Proof.
+    intros Hp Hok Hw En Ha.
+    destruct (admissible_conjuncts_pre _ _ _ _ _ Ha) as (lit & Hc).
+    exists (set_covert r lit). apply process_announce_iff. exists p, v6, r, lit. repeat split; auto.
   Qed.
 
   (* ---- the IPv6 twin of a dual-stack message is never passed on; hence at most one Share per message ---- *)
